@@ -53,7 +53,16 @@
     * `std::time::Duration` is a `Nat` of nanoseconds (`Duration::MAX`, `from_secs`, `from_millis` as in std;
       comparison, copy, checked `+` / `-`); `BTreeMap` / `HashMap` with integer keys are key-sorted association lists
       (section "BTreeMap" below; HashMap iteration is rejected); `let x = map.entry(k).or_insert_with(|| e)` makes
-      `x` an alias of the map entry; a `const` nested in a block is a `let`; `Option::expect(msg)` is `unwrap`;
+      `x` an alias of the map entry, so does `let Some(x) = map.get_mut(&k) else { … }`;
+      `for (&k, v) in btree.iter_mut()` is a loop over the positions `0..len` of the association list in which `k` is
+      the key and `v` an alias of the value of the `i`-th binding (keys cannot change, so the order is preserved);
+      a struct-variant pattern matched against such a `&mut` place binds aliases of the variant's fields: they are
+      read through the generated partial accessor `E.V.f?` (`unwrap`: the variant was just matched) and written
+      through the generated `E.V.set_f`;
+      `continue` / `break` (also labelled) leave a loop body through its early-exit channel as a `LoopExit`
+      (`whileFuel`, `forRangeExit`, `forEachExit`); a labelled jump out of an inner loop is the inner loop's
+      `LoopExit.ret` carrying the outer loop's `LoopExit`;
+      a `const` nested in a block is a `let`; `Option::expect(msg)` is `unwrap`; `let PAT = e else { … }` is a `match`;
       `std::net::SocketAddr` is the inductive `SocketAddr` whose `==` is structural; `Box<T>` is `T`;
       `==` / `!=` on byte arrays, table-mapped types and selected structs/enums is equality of the representation
       (their `PartialEq` impls are the derived / std structural ones);
@@ -190,6 +199,37 @@ def forEach {ε ρ σ α : Type} (l : List α) (init : σ) (body : α → σ →
   match l with
   | [] => .val init
   | x :: r => (body x init).bind fun st' => forEach r st' body
+
+/-- `for i in lo..hi { body }` whose body contains a `continue` / `break` of this loop: as for `whileFuel`,
+    the early-exit channel of the body carries a `LoopExit`.  `LoopExit.ret r` leaves the loop with `r`
+    (a `return` of the function, or — inside a nested loop — a labelled `continue` / `break` of an
+    enclosing loop, which is a `LoopExit` of that loop). -/
+def forRangeExit {ε ρ σ : Type} (lo hi : Nat) (init : σ) (body : Nat → σ → Exec ε (LoopExit ρ σ) σ) : Exec ε ρ σ :=
+  loop (hi - lo) lo init
+where
+  loop : Nat → Nat → σ → Exec ε ρ σ
+    | 0, _, st => .val st
+    | n + 1, i, st =>
+      match body i st with
+      | .val st' => loop n (i + 1) st'
+      | .ret (.cont st') => loop n (i + 1) st'
+      | .ret (.brk st') => .val st'
+      | .ret (.ret r) => .ret r
+      | .err e => .err e
+      | .panic s => .panic s
+
+/-- `for x in list { body }` whose body contains a `continue` / `break` of this loop (see `forRangeExit`) -/
+def forEachExit {ε ρ σ α : Type} (l : List α) (init : σ) (body : α → σ → Exec ε (LoopExit ρ σ) σ) : Exec ε ρ σ :=
+  match l with
+  | [] => .val init
+  | x :: r =>
+    match body x init with
+    | .val st' => forEachExit r st' body
+    | .ret (.cont st') => forEachExit r st' body
+    | .ret (.brk st') => .val st'
+    | .ret (.ret r') => .ret r'
+    | .err e => .err e
+    | .panic s => .panic s
 
 /-! ### unsigned fixed-width integers (`w` = bit width; `usize` is 64) -/
 
